@@ -67,8 +67,37 @@ type hworld struct {
 	w    *sim.World
 	req  *sim.Client
 	oth  *sim.Client
+	prot *sim.Client // optional bystander (C06)
 	cm   *chatRec
 	chat []byte
+}
+
+type hopts struct {
+	acc, othAcc [8]byte
+	withChat    bool
+	reqNoAgreed bool
+	third       string // "", "none", "same" (bystander from the second client's address), "other" (from another address)
+	pacc        [8]byte
+}
+
+// infoFork renders an information-fork side file (.info_<name>) from the protocol document's layout of the
+// flattened file object's information fork: platform(4) type(4) creator(4) flags(4) platform flags(4) reserved(32)
+// create date(8) modify date(8) name script(2) name size(2) name comment size(2) comment.
+func infoFork(typ, creator, name, comment string) []byte {
+	b := []byte("AMAC")
+	b = append(b, typ...)
+	b = append(b, creator...)
+	b = append(b, 0, 0, 0, 0, 0, 0, 1, 0)
+	b = append(b, make([]byte, 32)...)
+	date := []byte{0x07, 0x70, 0, 0, 0x00, 0x10, 0x00, 0x00}
+	b = append(b, date...)
+	b = append(b, date...)
+	b = append(b, 0, 0)
+	b = append(b, sim.U16(len(name))...)
+	b = append(b, name...)
+	b = append(b, sim.U16(len(comment))...)
+	b = append(b, comment...)
+	return b
 }
 
 func setAccess(w *sim.World, login string, acc [8]byte) error {
@@ -91,7 +120,8 @@ func allDefinedBut(skip ...int) [8]byte {
 // newHWorld builds the world every C05 / C06-kick case starts from: a file root with a file, a folder, an Uploads
 // folder holding a partial upload, a drop box and a destination folder; accounts req / other / victim / spare;
 // threaded news with a bundle, a category and one article; a message board; requester and a second client logged in.
-func newHWorld(acc, othAcc [8]byte, withChat, reqNoAgreed bool) (*hworld, error) {
+func newHWorld(o hopts) (*hworld, error) {
+	acc, othAcc, withChat, reqNoAgreed := o.acc, o.othAcc, o.withChat, o.reqNoAgreed
 	w, err := sim.NewWorld(sim.WorldOpts{
 		Accounts: []sim.Acct{
 			// (accounts are written without privileges; the case's bitmaps are set below through the real manager)
@@ -99,6 +129,7 @@ func newHWorld(acc, othAcc [8]byte, withChat, reqNoAgreed bool) (*hworld, error)
 			{Login: "other", Name: "OtherAcct", Password: "op"},
 			{Login: "victim", Name: "Victim", Password: "vp"},
 			{Login: "spare", Name: "Spare", Password: "sp"},
+			{Login: "prot", Name: "Bystander", Password: "pp"},
 		},
 		Agreement: "agreement text",
 		Board:     "old news\r",
@@ -110,14 +141,18 @@ func newHWorld(acc, othAcc [8]byte, withChat, reqNoAgreed bool) (*hworld, error)
 	fail := func(err error) (*hworld, error) { w.Close(); return nil, err }
 	h.cm = &chatRec{inner: w.Srv.ChatMgr}
 	w.Srv.ChatMgr = h.cm
-	for _, d := range []string{"Folder", "Uploads", "Drop Box", "Dest"} {
+	for _, d := range []string{"Folder", "Uploads", "Drop Box", "Dest", "Stuff"} {
 		if err := os.MkdirAll(filepath.Join(w.Root, d), 0755); err != nil {
 			return fail(err)
 		}
 	}
 	for p, data := range map[string]string{
 		"file.txt": "hello file", "Folder/inner.txt": "inner", "Uploads/part.bin.incomplete": "12345",
-		"Drop Box/secret.txt": "secret",
+		"Drop Box/secret.txt": "secret", "Stuff/in.txt": "in stuff", "liar.txt": "a regular file",
+		// side files that lie about the kind of the object: the folder Stuff claims to be a text file, the file
+		// liar.txt claims to be a folder
+		".info_Stuff":    string(infoFork("TEXT", "ttxt", "Stuff", "")),
+		".info_liar.txt": string(infoFork("fldr", "n/a ", "liar.txt", "")),
 	} {
 		if err := os.WriteFile(filepath.Join(w.Root, p), []byte(data), 0644); err != nil {
 			return fail(err)
@@ -150,6 +185,20 @@ func newHWorld(acc, othAcc [8]byte, withChat, reqNoAgreed bool) (*hworld, error)
 	}
 	if h.req.ID() < 0 || h.oth.ID() < 0 {
 		return fail(fmt.Errorf("clients not registered"))
+	}
+	if o.third == "same" || o.third == "other" {
+		if err := setAccess(w, "prot", o.pacc); err != nil {
+			return fail(err)
+		}
+		addr := "10.77.7.7:45001"
+		if o.third == "same" {
+			addr = strings.Split(h.oth.Addr, ":")[0] + ":45000"
+		}
+		h.prot = w.Dial(addr)
+		if rep, err := h.prot.Login(sim.LoginOpts{Login: "prot", Password: "pp", Name: "Bystander", Icon: 3}); err != nil || rep.Err != 0 {
+			return fail(fmt.Errorf("login prot: %v err=%d", err, rep.Err))
+		}
+		h.prot.Drain()
 	}
 	if withChat {
 		// the second client opens a private chat (it is its only member) and invites the requester
@@ -315,7 +364,134 @@ func needsChat(t int, k string) bool {
 
 // buildReq translates (transaction type, context) into the request's fields.  The contexts are those of
 // Authz!Table; every request is otherwise valid in the world built by newHWorld.
-func (h *hworld) buildReq(t int, k string) ([]sim.F, error) {
+func (h *hworld) buildReq(t int, kv string) ([]sim.F, error) {
+	k, variant, _ := strings.Cut(kv, "/")
+	f, err := h.baseReq(t, k, variant)
+	if err != nil || variant == "" {
+		return f, err
+	}
+	return applyVariant(t, variant, f)
+}
+
+// field editing helpers for the variants
+func dropField(f []sim.F, id int) []sim.F {
+	out := []sim.F{}
+	for _, x := range f {
+		if x.ID != id {
+			out = append(out, x)
+		}
+	}
+	return out
+}
+
+func setField(f []sim.F, id int, data []byte) []sim.F {
+	return append(dropField(f, id), sim.Fld(id, data))
+}
+
+// applyVariant edits the fields of an otherwise valid request: optional fields present / absent, option values,
+// 2- vs 4-byte integers, an extra unknown field.
+func applyVariant(t int, v string, f []sim.F) ([]sim.F, error) {
+	if v == "extra" {
+		return append(f, sim.Fld(999, []byte("unknown field"))), nil
+	}
+	switch t {
+	case 108:
+		switch v {
+		case "noopt":
+			return dropField(f, sim.FOptions), nil
+		case "opt2", "opt3", "opt4":
+			return setField(f, sim.FOptions, []byte{0, v[3] - '0'}), nil
+		case "opt4w":
+			return setField(f, sim.FOptions, []byte{0, 0, 0, 4}), nil
+		case "quote":
+			return append(f, sim.Fld(sim.FQuotingMsg, []byte("> earlier"))), nil
+		}
+	case 105:
+		switch v {
+		case "emote":
+			return append(f, sim.Fld(sim.FChatOptions, []byte{0, 1})), nil
+		case "opt2":
+			return append(f, sim.Fld(sim.FChatOptions, []byte{0, 2})), nil
+		case "zeroid":
+			return setField(f, sim.FChatID, []byte{0, 0, 0, 0}), nil
+		}
+	case 110:
+		switch v {
+		case "opt0":
+			return setField(f, sim.FOptions, []byte{0, 0}), nil
+		case "opt3":
+			return setField(f, sim.FOptions, []byte{0, 3}), nil
+		case "opt1w":
+			return setField(f, sim.FOptions, []byte{0, 0, 0, 1}), nil
+		}
+	case 202:
+		if v == "preview" {
+			return append(f, sim.Fld(sim.FFileTransferOptions, []byte{0, 2})), nil
+		}
+	case 203:
+		if v == "nosize" {
+			return dropField(f, sim.FTransferSize), nil
+		}
+	case 213:
+		if v == "opt1" {
+			return append(f, sim.Fld(sim.FFileTransferOptions, []byte{0, 1})), nil
+		}
+	case 304, 121:
+		switch v {
+		case "opts":
+			return setField(f, sim.FOptions, sim.U16(1)), nil
+		case "auto":
+			return append(setField(f, sim.FOptions, sim.U16(4)), sim.Fld(sim.FAutomaticResponse, []byte("away"))), nil
+		case "icon4":
+			return setField(f, sim.FUserIconID, []byte{0, 0, 0, 9}), nil
+		}
+	case 350:
+		if v == "nopw" {
+			return dropField(f, sim.FUserPassword), nil
+		}
+	case 353:
+		switch v {
+		case "nopw":
+			return dropField(f, sim.FUserPassword), nil
+		case "pw":
+			return setField(f, sim.FUserPassword, sim.Obfuscate([]byte("newpw"))), nil
+		case "noaccess":
+			return dropField(f, sim.FUserAccess), nil
+		}
+	case 349:
+		if v == "nopw" || v == "pw" {
+			return f, nil // built by baseReq
+		}
+	case 381, 382:
+		if v == "nested" {
+			return append(f, sim.Fld(sim.FNewsPath, sim.EncNewsPath("Bundle"))), nil
+		}
+	case 400:
+		switch v {
+		case "id2":
+			return setField(f, sim.FNewsArtID, sim.U16(1)), nil
+		case "noflavor":
+			return dropField(f, sim.FNewsArtDataFlav), nil
+		}
+	case 410:
+		switch v {
+		case "id2":
+			return setField(f, sim.FNewsArtID, sim.U16(0)), nil
+		case "reply":
+			return setField(f, sim.FNewsArtID, sim.U32(1)), nil
+		}
+	case 411:
+		switch v {
+		case "id2":
+			return setField(f, sim.FNewsArtID, sim.U16(1)), nil
+		case "norecurse":
+			return dropField(f, sim.FNewsArtRecurseDel), nil
+		}
+	}
+	return nil, fmt.Errorf("no variant %q for transaction %d", v, t)
+}
+
+func (h *hworld) baseReq(t int, k, variant string) ([]sim.F, error) {
 	other := sim.Fld(sim.FUserID, sim.U16(h.oth.ID()))
 	name := func(n string) sim.F { return sim.Fld(sim.FFileName, []byte(n)) }
 	path := func(items ...string) sim.F { return sim.Fld(sim.FFilePath, sim.EncPath(items...)) }
@@ -324,6 +500,10 @@ func (h *hworld) buildReq(t int, k string) ([]sim.F, error) {
 	bad := func() ([]sim.F, error) { return nil, fmt.Errorf("no request for (%d, %q)", t, k) }
 	fileOrFolder := func() (string, bool) {
 		switch {
+		case strings.HasPrefix(k, "filelie"):
+			return "liar.txt", true
+		case strings.HasPrefix(k, "folderlie"):
+			return "Stuff", true
 		case strings.HasPrefix(k, "file"):
 			return "file.txt", true
 		case strings.HasPrefix(k, "folder"):
@@ -435,6 +615,16 @@ func (h *hworld) buildReq(t int, k string) ([]sim.F, error) {
 		case "create":
 			return []sim.F{subCreate("newacct", zero)}, nil
 		case "modify":
+			switch variant {
+			case "nopw":
+				var z [8]byte
+				return []sim.F{sim.Fld(sim.FData, encSub(sim.Fld(sim.FUserLogin, sim.Obfuscate([]byte("victim"))),
+					sim.Fld(sim.FUserName, []byte("Changed")), sim.Fld(sim.FUserAccess, z[:])))}, nil
+			case "pw":
+				var z [8]byte
+				return []sim.F{sim.Fld(sim.FData, encSub(sim.Fld(sim.FUserLogin, sim.Obfuscate([]byte("victim"))),
+					sim.Fld(sim.FUserName, []byte("Changed")), sim.Fld(sim.FUserPassword, sim.Obfuscate([]byte("newpw"))), sim.Fld(sim.FUserAccess, z[:])))}, nil
+			}
 			return []sim.F{subModify("victim")}, nil
 		case "rename":
 			return []sim.F{subRename("victim", "victim2")}, nil
@@ -590,7 +780,8 @@ func runHandle(c map[string]any, ev map[string]any) error {
 	t := intOf(c["t"])
 	k, _ := c["k"].(string)
 	acc := bitmapOf(c["acc"])
-	h, err := newHWorld(acc, allDefinedBut(23), needsChat(t, k), t == 121)
+	base, _, _ := strings.Cut(k, "/")
+	h, err := newHWorld(hopts{acc: acc, othAcc: allDefinedBut(23), withChat: needsChat(t, base), reqNoAgreed: t == 121})
 	if err != nil {
 		return err
 	}
